@@ -148,6 +148,7 @@ func runC17(p *Prog, r *Report, tier string) {
 
 	checkInfoElementImmutable(p, r, "R-OWNER.info-element")
 	checkSpecifierFreshness(p, r, "R-SIBLING.specifier-fresh")
+	checkReverseRegistration(p, r, "R-TABLE.reverse")
 	// strict mode: "the data that follows is rejected" needs the rejected template to invalidate an older one (C04's rule)
 	if dts, first, dels, adds := templateDecoderAnchors(p); dts != nil {
 		checkInvalidate(p, r, dts, first, dels, adds)
@@ -338,4 +339,54 @@ func sameCell(a, b ssa.Value) bool {
 	ua, ok1 := a.(*ssa.UnOp)
 	ub, ok2 := b.(*ssa.UnOp)
 	return ok1 && ok2 && ua.Op == token.MUL && ub.Op == token.MUL && ua.X == ub.X
+}
+
+// checkReverseRegistration: an element gets an entry in the reverse (PEN 29305) registry only if it HAS a reverse
+// element: the two reverse-map updates in registerInfoElement are guarded by `err == nil` of the reverse lookup.
+// getIANAReverseInfoElement returns the forward element together with its error for non-reversible elements, so a
+// `!= nil` test on the element registers e.g. flowId under the reverse PEN: a field that must be unknown resolves.
+func checkReverseRegistration(p *Prog, r *Report, rule string) {
+	rg := p.Fn("pkg/registry.registerInfoElement")
+	if rg == nil {
+		r.Undecided(rule, "anchor: registerInfoElement", "pkg/registry/registry.go", "not found")
+		return
+	}
+	var lk *ssa.Call
+	eachInstr(rg, func(in ssa.Instruction) {
+		if c, ok := in.(*ssa.Call); ok && c.Call.StaticCallee() != nil && c.Call.StaticCallee().Name() == "getIANAReverseInfoElement" {
+			lk = c
+		}
+	})
+	if lk == nil {
+		r.Undecided(rule, fnKey(rg)+": reverse lookup", p.pos(rg.Pos()), "call of getIANAReverseInfoElement not found")
+		return
+	}
+	var errV, ieV ssa.Value
+	for _, e := range extractOf(lk, 1) {
+		errV = e
+	}
+	for _, e := range extractOf(lk, 0) {
+		ieV = e
+	}
+	n := 0
+	eachInstr(rg, func(in ssa.Instruction) {
+		mu, ok := in.(*ssa.MapUpdate)
+		if !ok || stripChange(mu.Value) != ieV || ieV == nil {
+			return
+		}
+		n++
+		okG := false
+		for _, fct := range blockFacts(in.Block()) {
+			if errV != nil && fct.X == errV && fct.Op == token.EQL {
+				if c, ok := fct.Y.(*ssa.Const); ok && c.IsNil() {
+					okG = true
+				}
+			}
+		}
+		r.Check(okG, rule, fmt.Sprintf("%s: reverse registration #%d guarded by the lookup's error", fnKey(rg), n), p.instrPos(in), "only when getIANAReverseInfoElement returned no error",
+			"the reverse registry is filled although the reverse lookup failed (or its error is ignored): non-reversible elements are registered under the reverse enterprise number, so a template field that must be unknown resolves to a forward element - strict mode accepts it, keep/drop modes treat it as known and decode the following fields from the wrong offsets", true)
+	})
+	if n < 2 {
+		r.Undecided(rule, fnKey(rg)+": reverse map updates", p.pos(rg.Pos()), fmt.Sprintf("found %d", n))
+	}
 }
